@@ -145,7 +145,7 @@ def rekey_prepends(ctx):
     F = ctx.F
     rb = F.fn('core::primitives::rekey')
     ins = []
-    for body in F.family(rb.key):
+    for body in lib.family_ext(F, rb.key):
         for c in body.calls():
             if c.args and any(r[0] == 'param' and r[2] and r[2][-1] == 'secrets' for r in root_descr(body, c.args[0])):
                 ins.append(c)
